@@ -66,14 +66,18 @@ func c09QPOps() []c09QPOp {
 		p2("MForm", func(r ringqp.Ring, a, o ringqp.Poly) { r.MForm(a, o) }),
 		p2("IMForm", func(r ringqp.Ring, a, o ringqp.Poly) { r.IMForm(a, o) }),
 		p2("Reduce", func(r ringqp.Ring, a, o ringqp.Poly) { r.Reduce(a, o) }),
-		px("MulScalar", false, false, 0, func(r ringqp.Ring, be *ring.BasisExtender, a ringqp.Poly, x *c09QPArgs, o ringqp.Poly) { r.MulScalar(a, x.u, o) }),
+		px("MulScalar", false, false, 0, func(r ringqp.Ring, be *ring.BasisExtender, a ringqp.Poly, x *c09QPArgs, o ringqp.Poly) {
+			r.MulScalar(a, x.u, o)
+		}),
 		px("MulRNSScalarMontgomery", false, false, 0, func(r ringqp.Ring, be *ring.BasisExtender, a ringqp.Poly, x *c09QPArgs, o ringqp.Poly) {
 			r.MulRNSScalarMontgomery(a, x.s, o)
 		}),
 		px("EvalPolyScalar", false, false, 0, func(r ringqp.Ring, be *ring.BasisExtender, a ringqp.Poly, x *c09QPArgs, o ringqp.Poly) {
 			r.EvalPolyScalar(x.list, x.u, o)
 		}),
-		px("Automorphism", false, true, 0, func(r ringqp.Ring, be *ring.BasisExtender, a ringqp.Poly, x *c09QPArgs, o ringqp.Poly) { r.Automorphism(a, x.gen, o) }),
+		px("Automorphism", false, true, 0, func(r ringqp.Ring, be *ring.BasisExtender, a ringqp.Poly, x *c09QPArgs, o ringqp.Poly) {
+			r.Automorphism(a, x.gen, o)
+		}),
 		px("AutomorphismNTT", false, true, 0, func(r ringqp.Ring, be *ring.BasisExtender, a ringqp.Poly, x *c09QPArgs, o ringqp.Poly) {
 			r.AutomorphismNTT(a, x.gen, o)
 		}),
